@@ -1185,6 +1185,7 @@ func monOp(w *simWorld, actor int, op *Op) {
 		if !p.cfg.GR.Enabled || !p.isUp() {
 			return
 		}
+		defer st.touch(w)
 		sent := p.snapshotSent()
 		if !p.dropSession(op.Arg) {
 			return
